@@ -425,6 +425,13 @@ func (s *Sim) Apply(op Op) {
 		prevHandles = 0
 	}
 	s.dispatch(o)
+	// the call is over (queries closed, events delivered): the caller reuses its argument buffers
+	for _, b := range s.Worlds() {
+		b.ScribbleArgs()
+	}
+	for _, x := range s.X {
+		x.b.ScribbleArgs()
+	}
 	if s.Done() {
 		return
 	}
